@@ -35,7 +35,7 @@ def check(ctx):
         sfile = os.path.join(ctx.work, "conc%d.json" % i)
         rc, out, wall = vf.run([exe, "astconc", "-dump", g["dump"], "-out", sfile, "-seed", str(ctx.seed), "-stride", str(stride),
                                 "-limit", str(limit), "-stress", str(ctx.pick(100, 2000) if i == 0 else 0)],
-                               2400, env={"GORACE": "halt_on_error=0", "VERIF_SEED": str(ctx.seed)})
+                               2400, env={"GORACE": "halt_on_error=0 exitcode=0", "VERIF_SEED": str(ctx.seed)})
         if rc != 0 or not os.path.exists(sfile):
             raise vf.Inconclusive("astconc replay failed rc=%d:\n%s" % (rc, out[-3000:]))
         s = json.load(open(sfile))
